@@ -996,8 +996,49 @@ func two(n int) string {
 	return strconv.Itoa(n)
 }
 
-func (s *Store) DeleteAllOf(context.Context, client.Object, ...client.DeleteAllOfOption) error {
-	panic("kube model: DeleteAllOf is not modelled")
+// DeleteAllOf deletes every object of obj's group/kind (in the option's
+// namespace, if any), one by one, with the semantics of Delete.
+func (s *Store) DeleteAllOf(ctx context.Context, obj client.Object, opts ...client.DeleteAllOfOption) error {
+	do := &client.DeleteAllOfOptions{}
+	for _, o := range opts {
+		o.ApplyToDeleteAllOf(do)
+	}
+	group, kind := s.GK(obj)
+	c := Call{Verb: VerbDelete, Group: group, Kind: kind, NS: do.Namespace, Name: "*"}
+	if f := s.fault(); f == FaultErrNoEffect || f == FaultConflict {
+		c.Err = true
+		s.log(c)
+		return errInjected
+	}
+	var names [][2]string
+	for _, e := range s.entries {
+		if e.group == group && e.kind == kind && (do.Namespace == "" || e.ns == do.Namespace) {
+			names = append(names, [2]string{e.ns, e.name})
+		}
+	}
+	for _, n := range names {
+		i := s.find(group, kind, n[0], n[1])
+		if i < 0 {
+			continue
+		}
+		md := metaOf(s.entries[i].doc)
+		if fs, _ := md["finalizers"].([]any); len(fs) > 0 {
+			if _, already := md["deletionTimestamp"]; !already {
+				s.now++
+				md["deletionTimestamp"] = "2024-01-01T00:00:" + two(s.now%60) + "Z"
+				md["resourceVersion"] = s.nextRV()
+				c.Effect = true
+			}
+		} else {
+			s.entries = append(s.entries[:i:i], s.entries[i+1:]...)
+			c.Effect = true
+		}
+	}
+	s.log(c)
+	if c.Effect {
+		s.mutated()
+	}
+	return nil
 }
 
 type statusWriter struct{ s *Store }
